@@ -1,9 +1,39 @@
--- line-protocol handler of property C01 (stub: nothing modelled yet)
+-- line-protocol handler of property C01 (completeness): the protocol glue of
+-- Winter/Model/Protocol.lean; end-to-end `run` lines are not modelled (answer `-`)
 import Winter.Drv.Util
+import Winter.Model.Protocol
 
 namespace Drv.C01
+open Model.Protocol
 
-def handle (_toks : List String) : String := "-"
+/-- `base[.cycle]*` -/
+def degree? (s : String) : Option Degree :=
+  match (s.splitOn ".").mapM (fun x => x.toNat?) with
+  | some (b :: cs) => some { base := b, cycles := cs }
+  | _ => none
+
+/-- comma separated degrees, `-` for none -/
+def degrees? (s : String) : Option (List Degree) :=
+  if s == "-" then some [] else (s.splitOn ",").mapM degree?
+
+def glueLine (g : Glue) : String :=
+  s!"{g.ceBlowup} {g.ceDomain} {g.ldeDomain} {g.columns} {g.tracePolyDegree} {g.layers} {g.remDomain} {g.remCoef} {boolStr g.wellFormed} {boolStr g.queriesOk}"
+
+def handle (toks : List String) : String :=
+  match toks with
+  | "run" :: _ => "-"
+  | ["glue", n, q, b, g, x, f, r, e, mw, aw, nr, md, ad] =>
+    match natList [n, q, b, g, x, f, r, e, mw, aw, nr], degrees? md, degrees? ad with
+    | some [n, q, b, g, x, f, r, e, mw, aw, nr], some md, some ad =>
+      if x < 1 ∨ 3 < x then "bad-op"
+      else if [n, q, b, g, x, f, r, e, mw, aw, nr].any (· > 2 ^ 24)
+           ∨ (md ++ ad).any (fun d => d.base > 2 ^ 16 ∨ d.cycles.any (· > 2 ^ 24)) then "bad-op"
+      else
+        match glue n { queries := q, blowup := b, grinding := g, folding := f, remainder := r } e mw aw nr md ad with
+        | .ok gl => glueLine gl
+        | .panic => "panic"
+    | _, _, _ => "bad-op"
+  | _ => "bad-op"
 
 end Drv.C01
 
